@@ -17,3 +17,4 @@ open Bec2Verif.C18
 #print axioms ord23
 #print axioms trep23
 #print axioms ecdsa23_end_to_end
+#print axioms ecdsa_p256_end_to_end
